@@ -181,3 +181,126 @@ def copy_agreement(prog, chk, rule, classes=None, accepted=None):
                    op.loc() if a == "COPY" else cc.loc(), ok or bool(why), detail=detail if not why else why,
                    key="%s|%s|%s" % (rule, K, fl), nontrivial=True)
     return n
+
+
+# ------------------------------------------------------------------------------------------ ownership rules
+def _root_this_field(e):
+    while e is not None and (e["k"] in ("Index", "Cast") or (e["k"] == "OpCall" and e.get("op") in ("[]", "*")) or (e["k"] == "UnOp" and e.get("op") == "*")):
+        e = e["c"][0]
+    return _this_field(e)
+
+
+def owned_members(prog, K):
+    """{member: where}: pointer members (or containers of pointers) that the destructor of K deletes UNCONDITIONALLY,
+    directly or through helpers called on this (delAllCov ...)"""
+    out = {}
+    dt = [f for f in prog.funcs if f.cls == K and f.kind == "dtor" and f.body is not None]
+    seen = set()
+    work = [(f, 0, False) for f in dt]
+    while work:
+        f, depth, cond = work.pop()
+        if f.usr in seen or depth > 2:
+            continue
+        seen.add(f.usr)
+        for x in f.walk():
+            under_if = cond or any(a["k"] in ("If", "Cond") for a in f.ancestors(x))
+            if x["k"] == "Delete" and x.get("c") and x["c"][0] is not None:
+                e = x["c"][0]
+                fl = _root_this_field(e)
+                if fl is None:
+                    # `delete e` with e the variable of a range-for over a member
+                    while e is not None and e["k"] == "Cast":
+                        e = e["c"][0]
+                    if e is not None and e["k"] == "DeclRefExpr":
+                        for a in f.ancestors(x):
+                            if a["k"] == "ForRange" and a["c"][0] is not None and a["c"][0].get("d") == e.get("d"):
+                                fl = _root_this_field(a["c"][1])
+                                under_if = cond or any(b["k"] in ("If", "Cond") for b in f.ancestors(x) if b["i"] != a["i"] and any(z is a for z in f.ancestors(b)) is False and False)
+                                break
+                if fl and not under_if:
+                    out.setdefault(fl, f.loc(x))
+            elif x["k"] == "MCall" and x.get("callee") and (call_obj(x) is None or call_obj(x)["k"] == "This"):
+                for g in prog.fns(x["callee"]):
+                    if g.cls == K and g.body is not None:
+                        work.append((g, depth + 1, under_if))
+    return out
+
+
+def ownership_rules(prog, chk, rule_c, rule_d, classes=None):
+    """rule_c: operator= empties a container member before it appends the elements of the source to it.
+       rule_d: a pointer member (or container of pointers) that the destructor deletes is never taken from the source by value in a copy
+               operation: both objects would own, and delete, the same object."""
+    nc = nd = 0
+    for K, cinfo, cc, op in copy_pairs(prog, classes):
+        own = owned_members(prog, K)
+        for f, pd in ((cc, cc.params[0]["d"]), (op, op.params[0]["d"])):
+            src = {pd}
+            # -- shallow copies of owned members
+            shallow = {}
+            if f is cc:
+                for init in f.d.get("inits") or []:
+                    fl = init.get("field")
+                    e = init.get("init")
+                    while e is not None and e["k"] in ("Cast", "Construct") and len(e.get("c") or []) == 1:
+                        e = e["c"][0]
+                    if fl in own and e is not None and e["k"] == "MemberExpr" and e.get("n") == fl and _refs(e, src):
+                        shallow[fl] = f.loc()
+            for x in f.walk():
+                if x["k"] in ("Assign", "OpCall") and x.get("op") == "=" and len(x.get("c") or []) == 2:
+                    fl = _this_field(x["c"][0])
+                    e = x["c"][1]
+                    while e is not None and e["k"] == "Cast":
+                        e = e["c"][0]
+                    if fl in own and e is not None and e["k"] == "MemberExpr" and e.get("n") == fl and _refs(e, src):
+                        shallow[fl] = f.loc(x)
+                if x["k"] == "MCall" and (x.get("callee") or "").split("::")[-1] in ("push_back", "emplace_back"):
+                    fl = _this_field(call_obj(x))
+                    a = (call_args(x) or [None])[0]
+                    if fl in own and a is not None and _refs(a, src) and not any(y["k"] in ("New",) or (y["k"] in ("MCall", "Call") and
+                                                                                    (y.get("callee") or "").split("::")[-1] in ("clone", "duplicate", "create")) for y in walk(a)):
+                        shallow[fl] = f.loc(x)
+            for fl in sorted(own):
+                if f is cc or fl in shallow or True:
+                    pass
+            for fl, where in sorted(shallow.items()):
+                nd += 1
+                chk.analysed(f)
+                chk.ob(rule_d, "%s: the owned member %s is not taken from the source by value" % (f.sig(), fl), where, False,
+                       detail="~%s deletes %s (%s) and this copy operation stores the pointer(s) of the source: the copy and its source delete the same "
+                       "object(s); modifying or destroying one breaks the other" % (K, fl, own[fl]), key="%s|%s|%s|%s" % (rule_d, K, f.short, fl))
+            for fl in sorted(set(own) - set(shallow)):
+                nd += 1
+                chk.ob(rule_d, "%s: the owned member %s is not taken from the source by value" % (f.sig(), fl), f.loc(), True,
+                       key="%s|%s|%s|%s" % (rule_d, K, f.short, fl), nontrivial=False)
+        # -- operator= appends to a container member
+        from e1_paths import CFG
+        g = None
+        for x in op.walk():
+            if x["k"] == "MCall" and (x.get("callee") or "").split("::")[-1] in ("push_back", "emplace_back"):
+                fl = _this_field(call_obj(x))
+                if not fl or not any(_refs(a, {op.params[0]["d"]}) for a in call_args(x)) and not any(
+                        a["k"] == "ForRange" and _refs(a["c"][1], {op.params[0]["d"]}) for a in op.ancestors(x)):
+                    continue
+                nc += 1
+                chk.analysed(op)
+                if g is None:
+                    g = CFG(op)
+
+                def clears(y, fl=fl):
+                    if y["k"] == "MCall" and (y.get("callee") or "").split("::")[-1] in ("clear",) and _this_field(call_obj(y)) == fl:
+                        return True
+                    if y["k"] in ("Assign", "OpCall") and y.get("op") == "=" and y.get("c") and _this_field(y["c"][0]) == fl:
+                        return True
+                    if y["k"] == "MCall" and y.get("callee") and (call_obj(y) is None or call_obj(y)["k"] == "This"):
+                        for h in prog.fns(y["callee"]):
+                            if h.cls == K and h.body is not None and any(z["k"] == "MCall" and (z.get("callee") or "").split("::")[-1] == "clear" and
+                                                                        _this_field(call_obj(z)) == fl for z in h.walk()):
+                                return True
+                    return False
+                w = g.search(g.entry_pos(), is_target=lambda y, x=x: y["i"] == x["i"], is_barrier=clears) if g.pos_of(x) else None
+                ok = w is None
+                chk.ob(rule_c, "%s::operator= empties %s before it appends the elements of the source" % (K, fl), op.loc(x), ok,
+                       detail=None if ok else "the elements of the source are appended to those the object already holds: after `a = b`, a holds its previous "
+                       "elements followed by those of b (and the previous ones are not released)", key="%s|%s|%s" % (rule_c, K, fl),
+                       path=None if ok else g.describe(w))
+    return nc, nd
